@@ -867,7 +867,14 @@ class Parser():
             # (exp can be None.)
             exp = self._exp()
             self._expect(lexer.TokSymbol(b')'))
-            return self._prefixexp_recur(exp)
+            result = self._prefixexp_recur(exp)
+            if exp is not None and result is not exp:
+                # The parenthesized expression is the prefix of an index,
+                # attribute or call. The parentheses are not otherwise
+                # represented in the AST, so mark the node to let writers
+                # reproduce them.
+                exp.paren_prefix = True
+            return result
 
         return None
 
